@@ -19,4 +19,6 @@ func TestTreeModel(t *testing.T) {
 }
 
 // FuzzTreeModel: native coverage-guided fuzzing of the same property (thorough tier only).
-func FuzzTreeModel(f *testing.F) { vk.Fuzz(f, suite, "treeplan", treekit.GenPlan(opts()), treekit.RunPlan(opts())) }
+func FuzzTreeModel(f *testing.F) {
+	vk.Fuzz(f, suite, "treeplan", treekit.GenPlan(opts()), treekit.RunPlan(opts()))
+}
